@@ -495,6 +495,14 @@ func (t *transport) lineEngine(engineCtx context.Context, g *genWG, conn net.Con
 			// already abandoned the wait via genDone.
 			req.done <- err
 
+			// A retries-exhausted send is a line failure: the core tears this generation down as soon
+			// as Write returns the error. Stop serving the line NOW — an inbound block ACK'd from here
+			// on would be acknowledged to the peer (its send succeeds) and then dropped by the closing
+			// generation's delivery path.
+			if errors.Is(err, ErrSendFailed) {
+				return
+			}
+
 			continue
 		case <-genDone:
 			return
